@@ -51,7 +51,7 @@ def chresp(status, content: bytes, text: str):
 def work(args):
     label, doc, seed, cfg = args
     rng = random.Random(seed)
-    out = {"label": label, "doc": doc, "cases": [], "error": None, "skipped": []}
+    out = {"label": label, "doc": doc, "cfg": cfg, "cases": [], "error": None, "skipped": []}
     try:
         with impl.Gen(doc, cfg=cfg) as g:
             if g.exc is not None:
@@ -160,7 +160,7 @@ def work(args):
                         case["obs"] = "(PVal (Some " + ab.cpv(rp["parsed"]) + "))"
                 except Exception as e:
                     case["unrepresentable"] = repr(e)
-                case["expect"] = expectation(doc, ep, st, content)
+                case["expect"] = expectation(doc, ep, st, content, (cfg or {}).get("content_type_overrides"))
                 out["cases"].append(case)
             out["oracles"] = absprop.oracle_terms(strings)
     except BaseException as e:  # noqa
@@ -176,7 +176,7 @@ def resolve_response(doc, r):
     return r
 
 
-def expectation(doc, ep, status, content):
+def expectation(doc, ep, status, content, overrides=None):
     """from the DOCUMENT: ('undocumented',) | ('none',) | ('json', schema) | ('text',) | ('bytes',) | None (no claim)"""
     found = doc_operation(doc, ep)
     if not found:
@@ -197,7 +197,7 @@ def expectation(doc, ep, status, content):
     if not cont:
         return ("none",)
     for ct, mt in cont.items():
-        base = ct.split(";")[0].strip()
+        base = (overrides or {}).get(ct, ct).split(";")[0].strip()      # content_type_overrides is keyed by the document's exact media-type string
         if base.startswith("text/"):
             return ("text",) if "schema" in mt else ("none",)
         if base == "application/json" or base.endswith("+json"):
@@ -278,13 +278,13 @@ def check_result(case, which, all_any):
 
 def run(run, tier, replay=None):
     rng = run.rng
-    docs = [(l, d, None) for l, d in OPS.atlas_response_docs()] + [(l, d, None) for l, d in OPS.atlas_body_docs()]
+    docs = [(l, d, None) for l, d in OPS.atlas_response_docs()] + [(l, d, None) for l, d in OPS.atlas_body_docs()] + OPS.atlas_override_docs()
     nrand = 5 if tier == "quick" else 50
     for i in range(nrand):
         docs.append((f"rand{i}", OPS.random_doc(random.Random(rng.randrange(1 << 30)), n_ops=rng.randint(4, 8)), None))
     if replay:
         rp = json.load(open(replay))
-        docs = [(v.get("label", "replay"), v["doc"], None) for v in rp["violations"] if "doc" in v][:5]
+        docs = [(v.get("label", "replay"), v["doc"], v.get("cfg")) for v in rp["violations"] if "doc" in v][:5]
     run.rule = ("documents: atlas of response maps (JSON model / array / enum / integer / date / nullable / union of models, +json suffix, text/*, octet-stream, no content, "
                 "$ref'd component responses, first-supported-media-type, all-Any responses) + random operations; per operation: every documented status x canned "
                 "bodies (schema-valid JSON, near-valid JSON, non-JSON, text, bytes, empty) and undocumented statuses (incl. codes outside http.HTTPStatus) x both "
@@ -297,7 +297,7 @@ def run(run, tier, replay=None):
     terms, meta = [], []
     for di, r in enumerate(results):
         if r["error"]:
-            run.violation("harness-or-generator", {"label": r["label"], "error": r["error"], "doc": r["doc"]})
+            run.violation("harness-or-generator", {"label": r["label"], "error": r["error"], "doc": r["doc"], "cfg": r.get("cfg")})
             continue
         hdr += f"Definition T{di} : ctable := {r['ctable']}.\nDefinition O{di} : oracles := {r['oracles']}.\n"
         for c in r["cases"]:
@@ -305,7 +305,7 @@ def run(run, tier, replay=None):
             run.note_case({"doc": r["label"], "op": c["op"], "status": c["status"], "body": c["content"][:80], "flag": c["flag"]}, nontrivial=nontriv,
                           kind=(c["expect"][0] if c["expect"] else "no-claim"))
             if "unrepresentable" in c:
-                run.violation("correspondence", {"label": r["label"], "doc": r["doc"], "op": c["op"], "status": c["status"], "body": c["content"], "impl": c["parse"],
+                run.violation("correspondence", {"label": r["label"], "doc": r["doc"], "cfg": r.get("cfg"), "op": c["op"], "status": c["status"], "body": c["content"], "impl": c["parse"],
                                                  "note": "generated _parse_response produced something the model cannot represent: " + c["unrepresentable"]})
                 continue
             flag = "true" if c["flag"] else "false"
